@@ -88,6 +88,8 @@ def drive_hist(case, extra):
         o = _project(kind, inst)
         o["res"] = res
         obs.append(o)
+        # the caller's expression goes away before the next one is built (addresses are reused)
+        expr = val = None
     return {"id": case["id"], "kind": kind, "raw": case["raw"], "h": case["h"], "obs": obs}
 
 
